@@ -68,7 +68,9 @@ type c04spec struct {
 	ctype     string // handshake connection type
 	cred      int
 	victimTid bool
-	fault     int // 0 = none, else fail the k-th store op after the request is sent
+	fault     int           // 0 = none, else fail the k-th store op after the request is sent
+	stall     time.Duration // 0 = none, else the stallK-th store op after the request is sent takes this long (simulated)
+	stallK    int
 	law       simnet.Law
 }
 
@@ -88,6 +90,9 @@ type c04conn struct {
 	raw     []byte
 	legit   bool // part of the legitimate background pair
 	flagged bool
+	sp      c04spec
+	tid     string
+	pre     *session.TunnelBridge // bridge registered under tid when the request was prepared
 }
 
 type c04run struct {
@@ -106,6 +111,11 @@ type c04run struct {
 	tasks  []*simrt.Task
 	hist   []string
 	faulty bool
+	// storage stall: the store operation number stallAt takes stallDur of simulated time
+	stallAt    int
+	stallDur   time.Duration
+	stalling   int           // store operations currently stalled
+	stallUntil time.Duration // simulated instant at which the latest stall ends
 }
 
 func init() {
@@ -115,7 +125,7 @@ func init() {
 		Rule: "each run wires one real server node, registers clients L, T, S through the real handshake, creates the victim mapping M (L->T; with a non-empty secret, or through the connection-code path with an empty secret) and S's own mapping M2, " +
 			"then draws one tunnel state at arrival {no tunnel, bridge waiting locally, bridge served by the legitimate L/T pair streaming position-stamped bytes, tunnel id squatted by S under M2, waiting record of another node, expired waiting record, local waiting record without bridge}, " +
 			"one state of M {active, revoked, expired by clock, inactive, deleted} and 1-2 probe TunnelOpen requests over fresh connections: identity {L,T,S,U(no handshake / challenge pending / failed response)} x credential {id only, id+right secret, id+wrong secret, secret without id, other mapping's id, other mapping's id+secret, other id+M's secret, unknown id, resume-token garbage, nothing} x tunnel id {victim's, fresh} x handshake type {tunnel, control}, " +
-			"optionally with a store failure injected during validation or racing the legitimate target's open. Each request is judged by an entitlement function written from the property text. " +
+			"optionally with a store failure or a store stall (one storage operation taking 1-25 s of simulated time) injected during validation, racing the legitimate target's open, or as a burst: 2-3 probes plus one more legitimate listener open, each for its own fresh tunnel id, whose TunnelOpen requests are in flight at the same time and interleave at every storage operation and statement of the validation path. Each request is judged by an entitlement function written from the property text. " +
 			"Non-trivial: at least one TunnelOpen that the text does NOT entitle was delivered to the real dispatcher and its outcome (ack / close / silence, bridge membership, bytes readable) observed; distinct = distinct (identity, credential, mapping state, tunnel state) cells and schedule hashes.",
 		Real: []string{"internal/protocol/session SessionManager.handleTunnelOpen / handleExistingBridge / handleSourceBridge / handleTargetBridge / handleCrossNodeTargetConnection / startSourceBridge / runBridgeLifecycle, handshake path, BaseAdapter read loop",
 			"internal/protocol/session/tunnel Bridge (SetSource/SetTargetConnection, Start, copy loops), RoutingTable", "internal/app/server ServerTunnelHandler, ServerAuthHandler", "internal/cloud/services conncode Service (ValidateMapping, RevokeMapping, ActivateConnectionCode), PortMappingService, repos on the memory storage backend",
@@ -156,6 +166,13 @@ func c04Run(w *simrt.World, tier string) {
 	revokeBy := c.Intn(2, "revoke.by")
 	nprobe := 1 + c.Intn(2, "nprobe")
 	race := c.Chance(1, 3, "race.legit-target")
+	// burst: all probes and one more legitimate listener open are in flight at the same time, each for its own
+	// fresh tunnel id (so that what each request is entitled to does not depend on their order)
+	burst := c.Chance(1, 4, "burst")
+	if burst {
+		nprobe = 2 + c.Intn(2, "burst.nprobe")
+	}
+	burstSameID := c.Chance(1, 2, "burst.id-only")
 	var specs []c04spec
 	for i := 0; i < nprobe; i++ {
 		sp := c04spec{}
@@ -166,14 +183,38 @@ func c04Run(w *simrt.World, tier string) {
 		sp.victimTid = !c.Chance(1, 5, "probe.fresh-tid")
 		if c.Chance(1, 6, "probe.fault") {
 			sp.fault = 1 + c.Intn(6, "probe.fault.k")
+		} else if c.Chance(1, 5, "probe.stall") {
+			sp.stall = []time.Duration{4 * time.Second, time.Second, 9 * time.Second, 25 * time.Second}[c.Intn(4, "probe.stall.d")]
+			sp.stallK = 1 + c.Intn(6, "probe.stall.k")
 		}
 		sp.law = []simnet.Law{simnet.LawAll, simnet.LawMixed, simnet.LawSmall}[c.Intn(3, "probe.law")]
+		if burst {
+			// tunnel-type handshakes only: a second control-type login of one client replaces (closes) its first
+			sp.victimTid, sp.fault, sp.stall, sp.ctype = false, 0, 0, "tunnel"
+			if burstSameID && i < 2 {
+				sp.cred = 0 // several clients present the same mapping id at once
+			}
+		}
 		specs = append(specs, sp)
 	}
 
 	// ---- world ---------------------------------------------------------------
 	mem := simstore.NewMemory(w)
 	r.st = simstore.New(w, "n1", mem)
+	// latency fault: the hook runs in the task that performs the store operation, right before the backend call
+	r.st.Sync = func() {
+		if r.stallAt == 0 {
+			return
+		}
+		if ops, _ := r.st.Ops(); ops == r.stallAt {
+			r.stallAt = 0
+			w.Fault("store.stall")
+			r.stalling++
+			r.stallUntil = w.Now() + r.stallDur
+			w.Sleep(r.stallDur)
+			r.stalling--
+		}
+	}
 	rttl := 30 * time.Second
 	if c04tstateName[tstate] == "record-expired" {
 		rttl = 3 * time.Second
@@ -314,6 +355,28 @@ func c04Run(w *simrt.World, tier string) {
 	r.logf("mapping M is now %s", r.M.state)
 
 	// ---- phase 3: probes -----------------------------------------------------------
+	if burst {
+		w.Probe("burst")
+		var pcs []*c04conn
+		// connections are set up and authenticated one after the other; only the TunnelOpen requests overlap
+		if pc := r.prep(c04spec{ident: c04L, ctype: "tunnel", cred: 0}, "Lburst", true); pc != nil {
+			pcs = append(pcs, pc)
+		}
+		for i, sp := range specs {
+			if pc := r.prep(sp, fmt.Sprintf("probe%d-%s", i, c04identName[sp.ident]), false); pc != nil {
+				pcs = append(pcs, pc)
+			}
+		}
+		var ts []*simrt.Task
+		for _, pc := range pcs {
+			pc := pc
+			ts = append(ts, w.Spawn("burst-"+pc.name, func() { r.fire(pc) }))
+		}
+		for _, t := range ts {
+			t.Wait()
+		}
+		specs = nil
+	}
 	for i, sp := range specs {
 		name := fmt.Sprintf("probe%d-%s", i, c04identName[sp.ident])
 		if i == 0 && race && ts == "waiting" {
@@ -379,6 +442,12 @@ func (r *c04run) describeProbes() string {
 
 func (r *c04run) cleanup() {
 	r.stop = true
+	r.stallAt = 0
+	// a stalled store operation (it may have hit a background task) is allowed to finish before the world is
+	// torn down: the stall is at most 25 s long
+	for i := 0; i < 40 && r.stalling > 0; i++ {
+		r.w.Sleep(time.Second)
+	}
 	for _, pc := range r.conns {
 		if pc.cl != nil {
 			pc.cl.Close()
@@ -460,10 +529,11 @@ func (r *c04run) mkReq(cred int, tid string) packet.TunnelOpenRequest {
 }
 
 // entitled is the property text:
-//   attached only if authenticated and entitled to the tunnel's mapping: the
-//   mapping's listening client presenting the mapping id, or the listening or
-//   target client presenting the mapping's secret; revoked, expired, inactive
-//   or unknown mappings never yield an attachment.
+//
+//	attached only if authenticated and entitled to the tunnel's mapping: the
+//	mapping's listening client presenting the mapping id, or the listening or
+//	target client presenting the mapping's secret; revoked, expired, inactive
+//	or unknown mappings never yield an attachment.
 func (r *c04run) entitled(ident int, authed bool, q *packet.TunnelOpenRequest, hasTunnel bool, tunnelMapping string) (int, string) {
 	if ident == c04U || !authed {
 		return c04no, "unauthenticated"
@@ -551,9 +621,19 @@ func (r *c04run) noteBridge(tid string) *session.TunnelBridge {
 
 // open performs one TunnelOpen over a fresh connection and judges its outcome.
 func (r *c04run) open(sp c04spec, name string, legit bool) *c04conn {
+	pc := r.prep(sp, name, legit)
+	if pc == nil {
+		return nil
+	}
+	r.fire(pc)
+	return pc
+}
+
+// prep connects, authenticates, builds the request and classifies the tunnel state it will meet.
+func (r *c04run) prep(sp c04spec, name string, legit bool) *c04conn {
 	w := r.w
 	r.nconn++
-	pc := &c04conn{name: name, ident: sp.ident, legit: legit}
+	pc := &c04conn{name: name, ident: sp.ident, legit: legit, sp: sp}
 	addr := fmt.Sprintf("10.2.%d.%d:5000", sp.ident, r.nconn)
 	pc.cl = r.node.Connect(name, addr, simnet.LinkConfig{LawAB: sp.law, LawBA: sp.law})
 	r.conns = append(r.conns, pc)
@@ -585,10 +665,11 @@ func (r *c04run) open(sp c04spec, name string, legit bool) *c04conn {
 	if !sp.victimTid {
 		tid = fmt.Sprintf("tcp-tunnel-fresh-%d", r.nconn)
 	}
+	pc.tid = tid
 	pc.req = r.mkReq(sp.cred, tid)
 	hasTunnel, tunnelMapping := false, ""
-	pre := r.noteBridge(tid)
-	if b := pre; b != nil {
+	pc.pre = r.noteBridge(tid)
+	if b := pc.pre; b != nil {
 		hasTunnel, tunnelMapping = true, b.GetMappingID()
 		pc.tstate = "bridge-waiting"
 		if b.IsTargetReady() {
@@ -611,17 +692,34 @@ func (r *c04run) open(sp c04spec, name string, legit bool) *c04conn {
 	w.State(cell)
 	w.Probe("arrival." + pc.tstate)
 	w.Probe("verdict." + []string{"not-entitled", "entitled", "dont-care"}[pc.verdict])
+	return pc
+}
 
+// fire sends the prepared TunnelOpen and judges its outcome.
+func (r *c04run) fire(pc *c04conn) {
+	w := r.w
+	sp, name, tid, pre := pc.sp, pc.name, pc.tid, pc.pre
 	if sp.fault > 0 {
 		ops, _ := r.st.Ops()
 		r.st.FailAt = ops + sp.fault
+		r.faulty = true
+	}
+	if sp.stall > 0 {
+		ops, _ := r.st.Ops()
+		r.stallDur, r.stallAt = sp.stall, ops+sp.stallK
 		r.faulty = true
 	}
 	payload, _ := json.Marshal(&pc.req)
 	if err := pc.cl.Send(packet.TunnelOpen, payload); err == nil {
 		pc.sent = true
 	}
-	if p, ok := pc.cl.RecvType(packet.TunnelOpenAck, 7*time.Second); ok {
+	// a stalled store may delay the answer by the length of the stall, never suppress it
+	// (nor may a stall still in progress from an earlier request, which callers sharing a storage read wait for)
+	ackWait := 7*time.Second + sp.stall
+	if rem := r.stallUntil - w.Now(); rem > 0 {
+		ackWait += rem
+	}
+	if p, ok := pc.cl.RecvType(packet.TunnelOpenAck, ackWait); ok {
 		var ack packet.TunnelOpenAckResponse
 		if json.Unmarshal(p.Payload, &ack) == nil {
 			pc.acked, pc.ackOK, pc.ackErr = true, ack.Success, ack.Error
@@ -629,6 +727,9 @@ func (r *c04run) open(sp c04spec, name string, legit bool) *c04conn {
 	}
 	if sp.fault > 0 {
 		r.st.FailAt = 0
+	}
+	if sp.stall > 0 {
+		r.stallAt = 0
 	}
 	// let the dispatcher finish whatever it does after the ack
 	w.Sleep(30 * time.Millisecond)
@@ -653,6 +754,9 @@ func (r *c04run) open(sp c04spec, name string, legit bool) *c04conn {
 	r.logf("%s as %s(%s,%s) TunnelOpen{tid=%s map=%q secret=%q resume=%v} at %s: ack=%v success=%v err=%q held=%q closed=%v readable=%dB victim-bytes=%v => text says %s %s",
 		name, c04identName[sp.ident], map[bool]string{true: "authenticated", false: "not authenticated"}[pc.authed], sp.ctype, tid, pc.req.MappingID, pc.req.SecretKey, pc.req.ResumeToken != "",
 		pc.tstate, pc.acked, pc.ackOK, pc.ackErr, held, closed, len(pc.raw), leaked, []string{"NOT entitled", "entitled", "don't-care"}[pc.verdict], pc.reason)
+	if sp.stall > 0 {
+		r.logf("  (a store operation among the next %d after %s's request was stalled for %v)", sp.stallK, name, sp.stall)
+	}
 	if pc.sent && pc.verdict == c04no {
 		w.Nontrivial()
 	}
@@ -677,7 +781,7 @@ func (r *c04run) open(sp c04spec, name string, legit bool) *c04conn {
 			if sp.fault > 0 {
 				ucls += "+store-fault"
 			}
-			w.Violationf("C04:unanswered:"+ucls, "a refused request (%s) got neither a failure acknowledgement nor a closed connection within 7s (store fault armed: %v)\n%s", pc.reason, sp.fault > 0, r.history())
+			w.Violationf("C04:unanswered:"+ucls, "a refused request (%s) got neither a failure acknowledgement nor a closed connection within %v (store fault armed: %v)\n%s", pc.reason, ackWait, sp.fault > 0, r.history())
 		default:
 			w.Probe("refused." + pc.reason)
 		}
@@ -690,5 +794,4 @@ func (r *c04run) open(sp c04spec, name string, legit bool) *c04conn {
 	default:
 		w.Probe("dont-care." + pc.reason)
 	}
-	return pc
 }
